@@ -1,4 +1,6 @@
 import UvModel.Utf8
+import UvModel.Puny
+import UvModel.Wtf8
 /-! helper lemmas for the text half of C18: bit operations of idna.c in arithmetic form -/
 namespace UvModel.Utf8
 
@@ -184,3 +186,193 @@ theorem spec_of_A_4 (a b c d v n : Nat) (r : List Nat) (ha : a < 256) (hb : b < 
   crunch h
 
 end UvModel.Utf8
+
+/-! ### Punycode / ToASCII: destination bounds, error codes, rejection of ill-formed input -/
+namespace UvModel.Puny
+open UvModel.Utf8
+
+/-- the destination is within bounds -/
+def Buf.ok (b : Buf) : Prop := b.out.length ≤ b.cap
+
+/-- `b'` is `b` after some more guarded stores: same capacity, old contents kept as a prefix,
+    still within bounds -/
+def Ext (b b' : Buf) : Prop := b'.cap = b.cap ∧ b.out <+: b'.out ∧ (b.ok → b'.ok)
+
+theorem Ext.refl (b : Buf) : Ext b b := ⟨rfl, List.prefix_refl _, id⟩
+theorem Ext.trans {a b c : Buf} (h1 : Ext a b) (h2 : Ext b c) : Ext a c :=
+  ⟨h2.1.trans h1.1, h1.2.1.trans h2.2.1, fun h => h2.2.2 (h1.2.2 h)⟩
+
+theorem ext_put (b : Buf) (c : Nat) : Ext b (b.put c) := by
+  unfold Buf.put
+  split
+  · refine ⟨rfl, List.prefix_append _ _, fun _ => ?_⟩
+    simp only [Buf.ok, List.length_append, List.length_singleton]; omega
+  · exact Ext.refl b
+
+theorem writeAscii_ext (cps : List UInt32) (x h : UInt32) (b : Buf) : Ext b (writeAscii cps x h b) := by
+  induction cps generalizing x b with
+  | nil => exact Ext.refl b
+  | cons c cs ih =>
+    unfold writeAscii
+    split
+    · exact ih x b
+    · simp only []
+      split
+      · exact ext_put b _
+      · exact (ext_put b _).trans (ih _ _)
+
+theorem digits_ext (bias k q : Nat) (b : Buf) : Ext b (digits bias k q b) := by
+  fun_induction digits bias k q b with
+  | case1 k q b h => exact ext_put b _
+  | case2 k q b h x y ih => exact (ext_put b _).trans ih
+
+theorem inner_ext (n : UInt32) (cps : List UInt32) (s : St) : Ext s.buf (inner n cps s).1.buf := by
+  induction cps generalizing s with
+  | nil => exact Ext.refl _
+  | cons c cs ih =>
+    unfold inner
+    simp only []
+    generalize (if c < n then s.delta + 1 else s.delta) = d1
+    by_cases h1 : c < n ∧ d1 = 0
+    · rw [if_pos h1]; exact Ext.refl _
+    · rw [if_neg h1]
+      by_cases h2 : c ≠ n
+      · rw [if_pos h2]; exact ih _
+      · rw [if_neg h2]; exact (digits_ext _ _ _ _).trans (ih _)
+
+theorem outer_ext (fuel : Nat) (cps : List UInt32) (n : UInt32) (s : St) :
+    Ext s.buf (outer fuel cps n s).2 := by
+  induction fuel generalizing n s with
+  | zero => exact Ext.refl _
+  | succ f ih =>
+    unfold outer
+    split
+    · simp only []
+      split
+      · exact Ext.refl _
+      · have hi := inner_ext (minGE n cps 0xFFFFFFFF) cps { s with delta := s.delta + (minGE n cps 0xFFFFFFFF - n) * (s.h + 1) }
+        split
+        · exact hi
+        · exact hi.trans (ih _ _)
+    · exact Ext.refl _
+
+theorem label_ext (bytes : List Nat) (b : Buf) : Ext b (label bytes b).2 := by
+  unfold label
+  split
+  · exact Ext.refl b
+  · simp only []
+    have h4 : Ext b ((((b.put 120).put 110).put 45).put 45) :=
+      (((ext_put b _).trans (ext_put _ _)).trans (ext_put _ _)).trans (ext_put _ _)
+    split <;> split <;> try split
+    all_goals first
+      | exact h4.trans (writeAscii_ext _ _ _ _)
+      | exact writeAscii_ext _ _ _ _
+      | exact (h4.trans (writeAscii_ext _ _ _ _)).trans ((ext_put _ _).trans (outer_ext _ _ _ _))
+      | exact (h4.trans (writeAscii_ext _ _ _ _)).trans (outer_ext _ _ _ _)
+      | exact (writeAscii_ext _ _ _ _).trans ((ext_put _ _).trans (outer_ext _ _ _ _))
+      | exact (writeAscii_ext _ _ _ _).trans (outer_ext _ _ _ _)
+
+theorem last_ext (acc : List Nat) (b : Buf) :
+    Ext b (if acc ≠ [] then label acc b else ((0 : Int), b)).2 := by
+  split
+  · exact label_ext acc b
+  · exact Ext.refl b
+
+theorem scan_ext (acc rest : List Nat) (b : Buf) : Ext b (scan acc rest b).2 := by
+  fun_induction scan acc rest b with
+  | case1 acc b r h => exact last_ext acc b
+  | case2 acc b r h1 h2 => exact last_ext acc b
+  | case3 acc b r h1 h2 b' =>
+    have hr := last_ext acc b
+    refine ⟨hr.1, hr.2.1.trans (List.prefix_append _ _), fun _ => ?_⟩
+    show (r.2.out ++ [0]).length ≤ r.2.cap
+    simp only [List.length_append, List.length_singleton]; omega
+  | case4 acc b a r n hx => exact Ext.refl b
+  | case5 acc b a r c n hx hd ih => exact ih
+  | case6 acc b a r c n hx hd res h => exact label_ext acc b
+  | case7 acc b a r c n hx hd res h ih => exact ((label_ext acc b).trans (ext_put _ _)).trans ih
+
+/-- the error codes `uv__idna_toascii_label` can return -/
+theorem label_rc (bytes : List Nat) (b : Buf) :
+    0 ≤ (label bytes b).1 ∨ (label bytes b).1 = UV_EINVAL ∨ (label bytes b).1 = UV_E2BIG ∨
+      (label bytes b).1 = FUEL_OUT := by
+  have ho : ∀ fuel cps n s, (outer fuel cps n s).1 = 0 ∨ (outer fuel cps n s).1 = UV_E2BIG ∨
+      (outer fuel cps n s).1 = FUEL_OUT := by
+    intro fuel
+    induction fuel with
+    | zero => intro cps n s; right; right; rfl
+    | succ f ih =>
+      intro cps n s
+      unfold outer
+      split
+      · simp only []
+        split
+        · right; left; rfl
+        · split
+          · right; left; rfl
+          · exact ih _ _ _
+      · left; rfl
+  unfold label
+  split
+  · right; left; rfl
+  · simp only []
+    split
+    · left; exact Int.natCast_nonneg _
+    · rcases ho _ _ _ _ with h | h | h
+      · left; rw [h]; exact Int.le_refl 0
+      · right; right; left; exact h
+      · right; right; right; exact h
+
+
+theorem bytes_drop {l : List Nat} (h : Bytes l) (k : Nat) : Bytes (l.drop k) :=
+  fun b hb => h b (List.mem_of_mem_drop hb)
+
+theorem scan_rejects (acc rest : List Nat) (b : Buf) (hb : Bytes rest) (h : specAll rest = none)
+    (iff : ∀ l, Bytes l → ∀ v n, decode1 l = (some v, n) → spec l = some (v, n)) :
+    (scan acc rest b).1 < 0 := by
+  fun_induction scan acc rest b with
+  | case1 acc b r h1 => simp [specAll] at h
+  | case2 acc b r h1 h2 => simp [specAll] at h
+  | case3 acc b r h1 h2 b' => simp [specAll] at h
+  | case4 acc b a r n hx => show UV_EINVAL < 0; decide
+  | case5 acc b a r c n hx hd ih =>
+    have hs := iff _ hb c n hx
+    rw [specAll, hs] at h
+    simp only [Option.map_eq_none_iff] at h
+    exact ih (bytes_drop (bytes_cons hb).2 _) h
+  | case6 acc b a r c n hx hd res h1 => exact h1
+  | case7 acc b a r c n hx hd res h1 ih =>
+    have hs := iff _ hb c n hx
+    rw [specAll, hs] at h
+    simp only [Option.map_eq_none_iff] at h
+    exact ih (bytes_drop (bytes_cons hb).2 _) h
+
+theorem scan_success (acc rest : List Nat) (b : Buf) (h : 0 ≤ (scan acc rest b).1) :
+    ∃ pre, (scan acc rest b).2.out = pre ++ [0] ∧ (scan acc rest b).1 = ((pre.length + 1 : Nat) : Int) := by
+  fun_induction scan acc rest b with
+  | case1 acc b r h1 => omega
+  | case2 acc b r h1 h2 => exact absurd (show (0 : Int) ≤ UV_EINVAL from h) (by decide)
+  | case3 acc b r h1 h2 b' => exact ⟨r.2.out, rfl, by simp [b']⟩
+  | case4 acc b a r n hx => exact absurd (show (0 : Int) ≤ UV_EINVAL from h) (by decide)
+  | case5 acc b a r c n hx hd ih => exact ih h
+  | case6 acc b a r c n hx hd res h1 => omega
+  | case7 acc b a r c n hx hd res h1 ih => exact ih h
+
+
+theorem scan_rc (acc rest : List Nat) (b : Buf) :
+    0 ≤ (scan acc rest b).1 ∨ (scan acc rest b).1 = UV_EINVAL ∨ (scan acc rest b).1 = UV_E2BIG ∨
+      (scan acc rest b).1 = FUEL_OUT := by
+  fun_induction scan acc rest b with
+  | case1 acc b r h1 =>
+    have : r = if acc ≠ [] then label acc b else ((0 : Int), b) := rfl
+    by_cases ha : acc ≠ []
+    · rw [if_pos ha] at this; rw [this]; exact label_rc acc b
+    · rw [if_neg ha] at this; rw [this] at h1; exact absurd (show (0 : Int) < 0 from h1) (by decide)
+  | case2 acc b r h1 h2 => right; left; rfl
+  | case3 acc b r h1 h2 b' => left; exact Int.natCast_nonneg _
+  | case4 acc b a r n hx => right; left; rfl
+  | case5 acc b a r c n hx hd ih => exact ih
+  | case6 acc b a r c n hx hd res h1 => exact label_rc acc b
+  | case7 acc b a r c n hx hd res h1 ih => exact ih
+
+end UvModel.Puny
